@@ -116,6 +116,13 @@ func (w *World) RunScript(lines []string) (err error) {
 				if err := w.openDB(a["kind"], name, write, ints(a["peers"])); err != nil {
 					return err
 				}
+				w.dbs = []*dbCtx{{kind: a["kind"], addr: w.dbAddr, stores: w.stores}}
+				w.curDB = 0
+				if a["events"] == "1" {
+					for _, p := range ints(a["peers"]) {
+						w.watchStoreEvents(p)
+					}
+				}
 			}
 			continue
 		}
@@ -374,6 +381,9 @@ func (w *World) execOpExtra(ctx context.Context, toks []string) error {
 		return err
 	}
 	if ok, err := w.execTransportOp(ctx, toks); ok || err != nil {
+		return err
+	}
+	if ok, err := w.execMultiDBOp(ctx, toks); ok || err != nil {
 		return err
 	}
 	if toks[0] == "unchanged" {
